@@ -414,8 +414,9 @@ def reconcile (uniq : List Int) (pl : PhaseList) : PhaseList :=
   -- `phase_list._dict = dict(zip(new_ids, phase_list._dict.values()))`
   PhaseList.ofPairs (uniq.zip (pl1.map (·.2)))
 
-/-- `CrystalMap(rotations, phase_id=pid, x, y, phase_list=pl, prop=props, is_in_data=mask)` -/
-def init (g : Grid) (pid : Nat → Int) (pl : Option PhaseList) (props : List (String × (Nat → Int)))
+/-- `CrystalMap.__init__` as it was before `fix:` commit 1077dd8 (kept to pin the repaired defect: a
+`not_indexed` entry of the caller's list was reconciled like an ordinary phase) -/
+def initOld (g : Grid) (pid : Nat → Int) (pl : Option PhaseList) (props : List (String × (Nat → Int)))
     (mask : Mask) : Sys :=
   let u := uniqueSorted ((List.range g.size).map pid)
   let notIdx := u.head? == some (-1)
@@ -428,9 +429,41 @@ def init (g : Grid) (pid : Nat → Int) (pl : Option PhaseList) (props : List (S
   let phases := if notIdx then PhaseList.addNotIndexed phases else phases
   ⟨g, pid, props, phases, [mask]⟩
 
-/-- `np.unique(self.phase_id)` ∩ `self.phases.ids`, then `self.phases[...]` and the single-phase
-special case of `phases_in_data` which looks the id up again *by name* -/
+/-- `if -1 in phase_list.ids: del phase_list[-1]` on the deep copy of the caller's list -/
+def dropNotIndexed (pl : PhaseList) : PhaseList :=
+  match PhaseList.dictPop pl (-1) with
+  | some d => d
+  | none => pl
+
+/-- `CrystalMap(rotations, phase_id=pid, x, y, phase_list=pl, prop=props, is_in_data=mask)`:
+the caller's list is deep-copied, a `not_indexed` entry (id -1) is dropped — it is re-created from the data —
+and the rest is reconciled with the ids of the data -/
+def init (g : Grid) (pid : Nat → Int) (pl : Option PhaseList) (props : List (String × (Nat → Int)))
+    (mask : Mask) : Sys :=
+  initOld g pid (pl.map dropNotIndexed) props mask
+
+/-- `self.phases[np.intersect1d(np.unique(self.phase_id), self.phases.ids)]` -/
+def phasesInDataGet (s : Sys) (m : Mask) : Except XErr PhaseList :=
+  let present := uniqueSorted ((ids s.n m).map s.phaseId)
+  let common := present.filter fun i => (PhaseList.ids s.phases).contains i
+  PhaseList.getItem s.phases (.idList common)
+
+/-- `CrystalMap.phases_in_data`: a single phase in the data is returned as a one-entry list under the id
+it was found with (`ids_in_data[0]`) -/
 def phasesInData (s : Sys) (m : Mask) : Except XErr PhaseList :=
+  let present := uniqueSorted ((ids s.n m).map s.phaseId)
+  let common := present.filter fun i => (PhaseList.ids s.phases).contains i
+  match PhaseList.getItem s.phases (.idList common) with
+  | .error e => .error e
+  | .ok [(_, p)] =>
+    (match common.head? with
+     | some i => .ok (PhaseList.ofSingle p (some i))
+     | none => .error .keyError)
+  | .ok d => .ok d
+
+/-- `phases_in_data` as it was before `fix:` commit bb01d48: the id of a single phase was looked up again
+*by name* (kept to pin the repaired defect) -/
+def phasesInDataOld (s : Sys) (m : Mask) : Except XErr PhaseList :=
   let present := uniqueSorted ((ids s.n m).map s.phaseId)
   let common := present.filter fun i => (PhaseList.ids s.phases).contains i
   match PhaseList.getItem s.phases (.idList common) with
@@ -545,18 +578,5 @@ def admissible (s : Sys) : Op → Bool
 def admissibleAll (s : Sys) : List Op → Bool
   | [] => true
   | o :: os => admissible s o && admissibleAll (step s o).1 os
-
-/-- the constructor with the repair proposed for finding C12-constructor-relinks-not-indexed:
-a `not_indexed` entry (id -1) of the caller's list is dropped before the reconciliation -/
-def initFixed (g : Grid) (pid : Nat → Int) (pl : Option PhaseList) (props : List (String × (Nat → Int)))
-    (mask : Mask) : Sys :=
-  init g pid (pl.map fun d => d.filter fun e => !(e.1 == -1)) props mask
-
-/-- `phases_in_data` with the repair proposed for finding C12-phases-in-data-id-by-name:
-a single phase keeps the id it was found under -/
-def phasesInDataFixed (s : Sys) (m : Mask) : Except XErr PhaseList :=
-  let present := uniqueSorted ((ids s.n m).map s.phaseId)
-  let common := present.filter fun i => (PhaseList.ids s.phases).contains i
-  PhaseList.getItem s.phases (.idList common)
 
 end Orix.XMap
